@@ -16,7 +16,8 @@ def _step(st):
     a = st["a"]
     if a == "Send":
         c = st.get("c", "fresh")
-        return f"Send({st['id']}->{st['to']})" if c == "fresh" else f"Send({st['id']}->{st['to']},id={c})"
+        extra = ("" if c == "fresh" else f",id={c}") + ("" if st.get("b", "none") == "none" else f",then={st['b']}")
+        return f"Send({st['id']}->{st['to']}{extra})"
     if a == "Recv":
         return f"Recv({st['id']}:{st['ty']}:{st['from']})"
     if a == "Attempt":
@@ -75,6 +76,7 @@ def _aborts(chk, s, behs, cases, what):
 def run_tracker(chk, replay):
     quick = chk.tier == "quick"
     chk.mc(vf.tlc_mc("IqTracker.tla", "IqTracker.cfg", workers=TLC_WORKERS), "IqTracker.cfg")
+    chk.mc(vf.tlc_mc("IqTracker.tla", "IqTrackerBody.cfg", workers=TLC_WORKERS, tag="IqTrackerBody"), "IqTrackerBody.cfg")
     if not quick:
         chk.mc(vf.tlc_mc("IqTracker.tla", "IqTrackerBig.cfg", workers=TLC_WORKERS, tag="IqTrackerBig"), "IqTrackerBig.cfg")
         # vacuity guard: without the rule "an empty / duplicate id is replaced" the design must break
@@ -96,6 +98,9 @@ def run_tracker(chk, replay):
             random.Random(chk.seed + 2).shuffle(allp)
             allp = allp[:10000]
         idp, st6 = vf.tlc_gen("IqTrackerGen.tla", "IqTrackerGenIds.cfg")
+        # continuation bodies that re-enter the API: tour of the model in which the continuation of i1 issues request k1
+        tbody, st10 = vf.tlc_gen("IqTrackerGen.tla", "IqTrackerGenTourBody.cfg")
+        tbody2 = [dict(b, transport="sasl2") for b in tbody if any(st["a"] == "Open" and st.get("refused") for st in b["steps"])]
         # session histories: every sequence of openings / closings (up to 6, thorough 7 events) with one request sent at any
         # position, negotiated the classic way (SASL, bind, <enable/>, <resume/>) and once more with SASL 2 / bind 2 / inline
         # stream management; and a tour whose state includes which kinds of session the client has already had
@@ -113,8 +118,9 @@ def run_tracker(chk, replay):
         else:
             att, st9 = vf.tlc_gen("IqTrackerGen.tla", "IqTrackerGenAttempt.cfg")
         gen = {"all_paths": st5, "all_paths_caller_ids": st6, "session_histories": st7, "session_histories_sasl2": {"behaviours": len(sess2)},
+               "tour_continuation_bodies": st10, "tour_continuation_bodies_sasl2": {"behaviours": len(tbody2)},
                "tour_session_history": st8, "tour_session_history_sasl2": {"behaviours": len(tsess2)}, "attempt_histories": st9, "tour_1_request": st1, "tour_2_requests": st2, "simulate": st3}
-        behs = allp + sess + sess2 + idp + tsess + tsess2 + att + t1 + t2 + sim
+        behs = allp + tbody + tbody2 + sess + sess2 + idp + tsess + tsess2 + att + t1 + t2 + sim
         if not quick:
             t3, st4 = vf.tlc_gen("IqTrackerGen.tla", "IqTrackerGenTourFull.cfg")
             st4["replayed"] = min(len(t3), 15000)
@@ -257,7 +263,9 @@ def run(chk, replay=None):
     run_tracker(chk, tracker)
     run_api(chk, None if rb is None else [b for b in rb if b.get("layer") == "api"])
     chk.cov["exhaustive"] = True
-    chk.cov["rule"] = ("raw layer: requests carry caller-chosen ids (fresh, empty, equal to the id of a pending request) and every "
+    chk.cov["rule"] = ("raw layer: continuations may re-enter the API (body sendNew: the continuation of a request issues another "
+                       "request, whichever way it was completed) and the requests issued that way are tracked like any other; "
+                       "requests carry caller-chosen ids (fresh, empty, equal to the id of a pending request) and every "
                        "reply carries the id the request's stanza was really written with; "
                        "transition tour of the one-request model (every transition, all sender classes and iq types), "
                        "all send/reply sequences of length 4 with two requests and all id choices, "
